@@ -146,6 +146,11 @@ bounded('C12',
         TECH_B + '; wrapper clauses by pyvc + z3')
 
 bounded('C03',
+        'Two parts. Level A (pyvc, counted in coverage.obligations; contracts/archive_classes.py): the mapping-protocol glue of file_archive '
+        '(14 methods) and dir_archive (10 methods), executed symbolically from an arbitrary stored content, refines the dict operation on that '
+        'content (result/KeyError, contents afterwards, contents unchanged on an exceptional exit or a rejected encoding, no handle-local '
+        'state) over the ASSUMED contracts of the primitives file_archive.__asdict__/__save__ and dir_archive._lookup/_store/_rmdir/'
+        '__contains__/_lsdir (key-to-entry mapping assumed injective); null_archive stays empty under every overriding method. '
         'Bounded (not a proof): 11 archive configurations driven through the whole mapping protocol against a Python dict: every '
         'operation from every prior state with <=2 (thorough: <=3) keys, plus seeded operation sequences without reset; after each '
         'operation the result/exception, the contents, len(), and the contents of an archive stored under another name are compared; '
